@@ -98,7 +98,6 @@ Lemma resolve (s : fsys) (sv : sview) (slm : slmode) (cs : list str) :
 Proof.
   intros [Hos Hadm Hwf Hlc Hrd] (Hg & Hk1 & Hk2 & Hnf).
   apply (sym_bridge_lookup s sv slm cs Hos Hwf Hlc Hrd); auto.
-  destruct (node_is_dir_get _ _ Hrd) as (ch & m & Hgr). exact (kperm_admin _ _ _ _ _ Hadm Hgr).
 Qed.
 
 Lemma werr_cases (e : ekind) (k : N) :
@@ -201,6 +200,7 @@ Proof.
   - rewrite search_loop_S in Hr. destruct (pi_next (v_os v) pi) as [ok pi1]. cbv zeta in Hr.
     destruct (negb ok).
     { subst r. cbn in Hc. injection Hc as <-. destruct (node_is_dir_get _ _ Hpd) as (ch & m & Hg). congruence. }
+    destruct (root_check h v vol p0); [subst r; discriminate Hc|].
     destruct (alookup str_eqb (pi_part pi1) (children h p0)) as [n|]; [|subst r; discriminate Hc].
     destruct (get h n) as [[ch m|dt k i m|t m]|] eqn:Hgn; [| | |subst r; discriminate He].
     + destruct (pi_is_last pi1); [subst r; cbn in Hc; injection Hc as <-; congruence|].
@@ -257,7 +257,8 @@ Proof.
   destruct (klookup s sv false true (abs_path cs)) as [par kind name n|par name md| |e]; cbn [walk_rel] in R.
   - destruct R as (R1 & R2 & R3 & _). rewrite R2, R1. cbn [is_file_exists negb].
     destruct (get (f_heap s) n) as [[ch m|dt k i m|t m]|] eqn:Hg; [reflexivity| |reflexivity|reflexivity].
-    rewrite (admin_kperm s sv n 2 H) by congruence. reflexivity.
+    rewrite (admin_kperm s sv n 2 H) by congruence.
+    unfold check_permission, drop_privs. rewrite (sh_admin _ _ H). reflexivity.
   - destruct R as (R1 & R2 & _). rewrite R1. reflexivity.
   - destruct R.
   - destruct R as (R1 & _). destruct (werr_cases _ _ R1 Hnf) as (Hc & ->).
